@@ -65,9 +65,23 @@ def same_name_globals(data):
 
 
 def _reach_nodes(stmt, acc, depth=0):
-    for node in ast.walk(stmt):
+    # not ast.walk: fickling builds ast.Tuple with a *tuple* of elts (TUPLE1/2/3), which
+    # ast.iter_child_nodes does not descend into, so a list captured through a tuple was missed
+    todo, seen = [stmt], set()
+    while todo:
+        node = todo.pop()
+        if id(node) in seen:
+            continue
+        seen.add(id(node))
         if isinstance(node, (ast.List, ast.Set, ast.Dict)):
             acc[id(node)] = node
+        if isinstance(node, ast.AST):
+            for name in node._fields:
+                v = getattr(node, name, None)
+                if isinstance(v, ast.AST):
+                    todo.append(v)
+                elif isinstance(v, (list, tuple)):
+                    todo.extend(x for x in v if isinstance(x, ast.AST))
 
 
 def _size(node):
